@@ -778,9 +778,35 @@ class PairEngine:
         site = 'clear(%s)' % show(x, f.unit)
         loops = _is_full_vertex_loop(ctx, e.node)
         if not (loops and x == ('var', loops[-1][1])):
-            self.fail('F-PAIR.N', ctx, site, e.node,
-                      'an adjacency list is cleared outside a full-range loop over the vertices: the edge count and '
-                      'labels of its edges cannot be adjusted by the all-vertices companions')
+            # a single list is cleared: the count must drop by the length of that list, read before the clear
+            subs = []
+            for c in self.companions(ctx, 'N.sub'):
+                t = strip_cast(c.args[0])
+                if t[0] == 'mcall' and t[1] == 'std::list::size' and t[2][0] == 'idx' and t[2][2] == x and \
+                        ctx.ev.role(t[2][1]) == 'A' and ctx.region(c.node) == ctx.region(e.node) and \
+                        f.can_reach_forward(c.node, e.node):
+                    subs.append(c)
+            if len(subs) == 1:
+                self.ok('F-PAIR.N', ctx, dict(function=f.display(), event=ctx.desc(e.node), companion=ctx.desc(subs[0].node),
+                                              form='single list cleared: count -= size() read before the clear'))
+            else:
+                self.fail('F-PAIR.N', ctx, site + ' <-> edgeNumber -= size()', e.node,
+                          'a single adjacency list is cleared but the edge count is not reduced by the length of that list '
+                          '(read before the clear) in the same control region')
+            if ctx.labelled:
+                self.R('F-PAIR.L').sites += 1
+                self.fail('F-PAIR.L', ctx, site + ' <-> label erase of every cleared entry', e.node,
+                          'a whole adjacency list is cleared with clear(): the labels of the edges it held are not erased '
+                          '(no per-entry erase of the keys (%s, *)): they outlive their edges' % show(x, f.unit))
+            if ctx.has_total:
+                self.R('F-PAIR.T').sites += 1
+                self.fail('F-PAIR.T', ctx, site + ' <-> total -= labels of the cleared entries', e.node,
+                          'a whole adjacency list is cleared with clear(): the running total is not reduced by the labels of '
+                          'the edges it held')
+            if ctx.undirected:
+                self.R('F-PAIR.M').sites += 1
+                self.fail('F-PAIR.M', ctx, site + ' without mirror removals', e.node,
+                          'a whole adjacency list is cleared with clear(): the mirror half-edges in the other lists stay')
             return
         loopnode = loops[-1][0]
         lreg = ctx.region(loopnode) if f.cfg_pos(loopnode) else None
